@@ -60,12 +60,12 @@ def C17():
             {"unit": unit, "args": ["--nmax", "5", "--nctor", "5", "--variants", "1", "--workers", "2", "--budget", "1500",
                                     "--validate", "300"],
              "cores": 2, "timeout": 2000},
-            {"unit": unit, "args": ["--nmax", "6", "--nctor", "5", "--variants", "0", "--depth", "2", "--workers", "4",
-                                    "--budget", "1500"],
-             "cores": 4, "timeout": 2000},
-            {"unit": unit, "args": ["--nmax", "6", "--nctor", "4", "--variants", "0", "--depth", "3", "--workers", "4",
-                                    "--budget", "1500"],
-             "cores": 4, "timeout": 2000},
+            {"unit": unit, "args": ["--nmax", "6", "--nctor", "5", "--variants", "0", "--depth", "2", "--workers", "2",
+                                    "--budget", "1800"],
+             "cores": 2, "timeout": 2300},
+            {"unit": unit, "args": ["--nmax", "6", "--nctor", "4", "--variants", "0", "--depth", "3", "--workers", "2",
+                                    "--budget", "1800"],
+             "cores": 2, "timeout": 2300},
         ],
     },
 }
